@@ -96,7 +96,7 @@ func recvIsDecoratorField(c ssa.CallInstruction, fn *ssa.Function, anteDec *type
 
 func checkC07(e *Engine, r *Report) {
 	e.BuildSSA()
-	r.NotDecided("truth table of the lane predicates HasSingleEthereumMessage / IsEthereumTx themselves (two small unit-tested predicates; trusted)")
+	r.NotDecided("the full truth table of the lane predicates as values; R6 decides their guard structure")
 	r.NotDecided("nested dispatch routes of other modules (gov, ICA host) beyond the authz screen: listed as advisory only")
 	r.Assumption("re-check (IsReCheckTx) only re-runs transaction bytes that already passed the Ethereum-shape guards in check mode")
 
@@ -214,6 +214,10 @@ func checkC07(e *Engine, r *Report) {
 
 	r.Rule("R4", "MUST-PASS+TABLE", "authz screen: checkDisabledMsgs recurses into MsgExec with level+1, tests MsgGrant's authorization URL, tests nested message URLs, errors past the depth limit; AnteHandle reaches next only if it returned nil; default disabled list ⊇ {MsgEthereumTx} ∪ request types of the SDK vesting MsgServer; Validate refuses an empty list; app wires the default list", 8, func() {
 		checkAuthzScreen(e, r)
+	})
+
+	r.Rule("R6", "MUST-PASS", "lane predicates: HasSingleEthereumMessage can be true only outside the message loop, after every message was asserted to be *MsgEthereumTx and a second one returned false; IsEthereumTx can be true (for a tx exposing extension options) only if HasSingleEthereumMessage held, there is no non-critical extension option, and the critical options are none or exactly one of the Ethereum extension type", 5, func() {
+		checkLanePredicates(e, r)
 	})
 
 	r.Rule("R5", "CENSUS(advisory)", "keepers that receive the message service router (nested dispatch routes) are listed", 0, func() {
@@ -843,4 +847,152 @@ func listRouterReceivers(e *Engine, r *Report) {
 			}
 		}
 	}
+}
+
+// trueOrigins lists the blocks in which a boolean function's result may become true: blocks of returns with a
+// non-false constant/computed result, and for phi results the predecessor of every edge that is not the constant false.
+func trueOrigins(fn *ssa.Function) []*ssa.BasicBlock {
+	var out []*ssa.BasicBlock
+	var visit func(v ssa.Value, at *ssa.BasicBlock, depth int)
+	visit = func(v ssa.Value, at *ssa.BasicBlock, depth int) {
+		if b, ok := constBool(v); ok {
+			if b {
+				out = append(out, at)
+			}
+			return
+		}
+		if phi, ok := v.(*ssa.Phi); ok && depth < 6 {
+			for k, ev := range phi.Edges {
+				visit(ev, phi.Block().Preds[k], depth+1)
+			}
+			return
+		}
+		out = append(out, at)
+	}
+	for _, ret := range returnsOf(fn) {
+		visit(ret.Results[0], ret.Block(), 0)
+	}
+	return out
+}
+
+func blockGuarded(fn *ssa.Function, b *ssa.BasicBlock, gs []Guard) bool {
+	if len(gs) == 0 {
+		return false
+	}
+	return !reachable(fn, fn.Blocks[0], surviveEdges(gs))[b]
+}
+
+func checkLanePredicates(e *Engine, r *Report) {
+	hs := e.Fn(pkgAnteUtils, "HasSingleEthereumMessage")
+	// (a) failed assertion returns false
+	okAssert, okSecond := false, false
+	for _, i := range ifs(hs) {
+		if ex, ok := i.Cond.(*ssa.Extract); ok && ex.Index == 1 {
+			if ta, isTA := ex.Tuple.(*ssa.TypeAssert); isTA && namedTypePath(ta.AssertedType) == pkgEvmTypes+".MsgEthereumTx" {
+				fail := i.Block().Succs[1]
+				if len(fail.Instrs) > 0 {
+					if ret, isRet := fail.Instrs[len(fail.Instrs)-1].(*ssa.Return); isRet {
+						if b, isK := constBool(ret.Results[0]); isK && !b {
+							okAssert = true
+						}
+					}
+				}
+			}
+		}
+		if _, isPhi := i.Cond.(*ssa.Phi); isPhi {
+			t := i.Block().Succs[0]
+			if len(t.Instrs) > 0 {
+				if ret, isRet := t.Instrs[len(t.Instrs)-1].(*ssa.Return); isRet {
+					if b, isK := constBool(ret.Results[0]); isK && !b {
+						okSecond = true
+					}
+				}
+			}
+		}
+	}
+	r.Check(okAssert, "HasSingleEthereumMessage › non-Ethereum message ⇒ false", e.Pos(hs.Pos()), "failed *MsgEthereumTx assertion returns false", "a transaction mixing Ethereum and other messages can be classified as Ethereum lane")
+	r.Check(okSecond, "HasSingleEthereumMessage › second message ⇒ false", e.Pos(hs.Pos()), "already-found flag returns false", "a transaction with several Ethereum messages can be classified as Ethereum lane")
+	inLoop := false
+	for _, l := range loopsOf(hs) {
+		for _, ret := range returnsFromInsideLoop(hs, l) {
+			if b, isK := constBool(ret.Results[0]); !(isK && !b) {
+				inLoop = true // a return from the middle of an iteration that may be true
+			}
+		}
+	}
+	r.Check(!inLoop && len(loopsOf(hs)) == 1, "HasSingleEthereumMessage › true only after all messages were inspected", e.Pos(hs.Pos()), "no true result from inside the loop", "the predicate can answer true before all messages were inspected")
+
+	ie := e.Fn(pkgAnteUtils, "IsEthereumTx")
+	gSingle := boolCallGuards(ie, true, func(c *ssa.Call) bool { return isCallTo(c, specHasSingleEth) })
+	lenGuard := func(method string, want int64) []Guard {
+		var gs []Guard
+		for _, i := range ifs(ie) {
+			b, ok := i.Cond.(*ssa.BinOp)
+			if !ok || (b.Op != token.EQL && b.Op != token.NEQ) {
+				continue
+			}
+			k, isK := constInt(b.Y)
+			lc, _ := callOf(b.X)
+			if !isK || k != want || lc == nil {
+				continue
+			}
+			bi, isBi := lc.Call.Value.(*ssa.Builtin)
+			if !isBi || bi.Name() != "len" {
+				continue
+			}
+			if !sliceFrom(lc.Call.Args[0]).Has(func(v ssa.Value) bool { c, ok := v.(*ssa.Call); return ok && isMethodNamed(c, method) }) {
+				continue
+			}
+			s := 0
+			if b.Op == token.NEQ {
+				s = 1
+			}
+			gs = append(gs, Guard{If: i, Survive: s})
+		}
+		return gs
+	}
+	gNoNC := lenGuard("GetNonCriticalExtensionOptions", 0)
+	gNoOpt := lenGuard("GetExtensionOptions", 0)
+	gOneOpt := lenGuard("GetExtensionOptions", 1)
+	// the "tx exposes no extension options" escape
+	var gNoIface []Guard
+	for _, i := range ifs(ie) {
+		if ex, ok := i.Cond.(*ssa.Extract); ok && ex.Index == 1 {
+			if ta, isTA := ex.Tuple.(*ssa.TypeAssert); isTA && namedTypeName(ta.AssertedType) == "HasExtensionOptionsTx" {
+				gNoIface = append(gNoIface, Guard{If: i, Survive: 1})
+			}
+		}
+	}
+	okS, okNC, okOpts := true, true, true
+	origins := trueOrigins(ie)
+	for _, b := range origins {
+		if !blockGuarded(ie, b, gSingle) {
+			okS = false
+		}
+		if blockGuarded(ie, b, gNoIface) {
+			continue // not an extension-options transaction
+		}
+		if !blockGuarded(ie, b, gNoNC) {
+			okNC = false
+		}
+		if !blockGuarded(ie, b, append(append([]Guard{}, gNoOpt...), gOneOpt...)) {
+			okOpts = false
+		}
+	}
+	r.Check(okS && len(origins) > 0, "IsEthereumTx › requires a single Ethereum message", e.Pos(ie.Pos()), "true only under HasSingleEthereumMessage", "IsEthereumTx can be true for a transaction that is not a single-Ethereum-message transaction")
+	r.Check(okNC, "IsEthereumTx › no non-critical extension options", e.Pos(ie.Pos()), "true only if len(GetNonCriticalExtensionOptions()) == 0", "an Ethereum transaction carrying a foreign non-critical extension option is accepted on some path")
+	// the one-option case must compare the type URL with the Ethereum extension constant
+	okURL := false
+	for _, b := range origins {
+		_ = b
+	}
+	allInstrs(ie, false, func(_ *ssa.Function, _ *ssa.BasicBlock, i ssa.Instruction) {
+		if bo, ok := i.(*ssa.BinOp); ok && bo.Op == token.EQL {
+			c, _ := callOf(bo.X)
+			if s, isK := constString(bo.Y); isK && c != nil && isMethodNamed(c, "GetTypeUrl") && s == constStringVal2(e, EV+"/constants", "EthermintExtensionOptionsEthereumTx") {
+				okURL = true
+			}
+		}
+	})
+	r.Check(okOpts && okURL, "IsEthereumTx › critical options: none or exactly the Ethereum extension", e.Pos(ie.Pos()), "len(opts) == 0, or == 1 with the Ethereum extension type URL", "an Ethereum transaction with other/multiple critical extension options is accepted")
 }
